@@ -33,7 +33,7 @@ def run(tier, seed, replay=None):
         rp = json.load(open(replay))
         case = rp["trace"]["input"]
         fn = "run_grid" if rp["trace"]["kind"] == "grid" else "run_graph"
-        trs = _fix(run_tasks("paths", fn, [case], timeout=60), [case], fn)
+        trs = _fix(run_tasks("paths", fn, [case], timeout=120), [case], fn)
         ck.classify(trs, ck.validate(DIR, "PathsTrace", trs, "replay"))
         return ck.finish()
     ck.mc(DIR, "PathAlgs", "MC_label3.cfg")
@@ -55,8 +55,8 @@ def run(tier, seed, replay=None):
             grids += drv.all_small_grids(3, 3, d) + drv.all_small_grids(3, 4, d)
     nexh = len(grids)
     grids += [drv.gen_grid(rng) for _ in range(300 if tier == "quick" else 2500)]
-    gt = _fix(run_tasks("paths", "run_graph", gcases, timeout=60), gcases, "run_graph")
-    rt = _fix(run_tasks("paths", "run_grid", grids, timeout=60), grids, "run_grid")
+    gt = _fix(run_tasks("paths", "run_graph", gcases, timeout=120), gcases, "run_graph")
+    rt = _fix(run_tasks("paths", "run_grid", grids, timeout=120), grids, "run_grid")
     trs = gt + rt
     vs = ck.validate(DIR, "PathsTrace", trs, "every applicable solver on each graph / grid", timeout=14400)
     ck.classify(trs, vs, nontrivial=lambda t, v: (t["kind"] == "graph" and len(t["edges"]) > 0) or (t["kind"] == "grid" and len(t["grid"]) * len(t["grid"][0]) > 1))
